@@ -5,6 +5,7 @@ import NiVerif.Model.Wfm
 import NiVerif.Proofs.WfmLemmas
 import NiVerif.Props.C01
 import NiVerif.Props.C09
+import NiVerif.Props.ExtProps
 
 namespace Props.C10
 open Model.Wfm Proofs.Wfm Props.C01 Props.C09
@@ -383,5 +384,24 @@ example :
       [⟨.analog, 0, 1, [], 0, 0, true, ⟨.irregular, none, [2, 5], 0⟩, 0, [], none⟩,
        ⟨.analog, 0, 1, [], 0, 0, true, ⟨.irregular, none, [], 0⟩, 0, [], none⟩]).map (·.1.stamps)
       = .ok [1, 2, 2, 5] := by rfl
+
+/-! ### the same statements over the generated `ExtendedPropertyDictionary._merge` (tier T14) -/
+
+/-- properties of a source are added only under keys the receiver lacks; existing values are never overwritten — stated over the
+    method regenerated from `_extended_properties.py` -/
+theorem gen_merge_lookup (p o : List (String × String)) (k : String) :
+    lookup (Gen.ExtProps.merge p o).1 k = (lookup p k).orElse (fun _ => lookup o k) := by
+  rw [Props.ExtProps.gen_merge_eq_model]; exact mergeProps_lookup o p k
+
+/-- the receiver's own entries stay where they were, new ones follow -/
+theorem gen_merge_prefix (p o : List (String × String)) : ∃ extra, (Gen.ExtProps.merge p o).1 = p ++ extra := by
+  rw [Props.ExtProps.gen_merge_eq_model]; exact mergeProps_prefix o p
+
+/-- a sequence of sources: earlier sources win (the fold of the generated method is the model's fold) -/
+theorem gen_merge_fold (p : List (String × String)) (os : List (List (String × String))) :
+    os.foldl (fun acc o => (Gen.ExtProps.merge acc o).1) p = os.foldl (fun acc o => Model.Wfm.mergeProps acc o) p := by
+  induction os generalizing p with
+  | nil => rfl
+  | cons o os ih => simp only [List.foldl_cons, Props.ExtProps.gen_merge_eq_model]
 
 end Props.C10
